@@ -9,7 +9,7 @@
 """
 import z3
 
-SCALARS = ('int', 'real', 'bool', 'str', 'none', 'any', 'fn')
+SCALARS = ('int', 'real', 'bool', 'str', 'none', 'any', 'fn', 'bytes', 'structfmt')
 CONTAINERS = ('list', 'set', 'dict', 'deque', 'ddict')   # ddict: collections.defaultdict (missing keys read as the default and are inserted)
 
 
